@@ -11,6 +11,7 @@ import (
 )
 
 type Clause struct {
+	Witness map[string]string // existential variable -> local variable name used as witness at returns
 	Raw   func(phis []Value, operand func(interface{}) string) string // engine-generated clause (auto invariants)
 	Label string
 	Props []string
@@ -53,10 +54,15 @@ type Contract struct {
 	Params    []QVar // for ghost functions / interface methods declared in spec
 	Results   []QVar
 	RecvName  string
+	Delegate  *TypeExpr // interface method contract = contract of this concrete type's method
+	Prune     bool     // check branch feasibility during symbolic execution and skip infeasible branches
+	Reveal    []string // opaque spec predicates whose definition this function's proof may use
 	AllowPanic []string // explicit panic kinds that are part of the specified behaviour
 }
 
 type SpecFunc struct {
+	Abstract bool // uninterpreted function of its arguments only (no heap); constrained by axioms
+	Opaque bool // callers see an uninterpreted predicate over its heap footprint unless they reveal it
 	Name   string
 	Pkg    string
 	Params []QVar
@@ -86,7 +92,7 @@ var clauseKeywords = map[string]bool{
 	"requires": true, "ensures": true, "modifies": true, "loop": true, "decreases": true,
 	"props": true, "pure": true, "trusted": true, "func": true, "spec": true, "ghost": true,
 	"lemma": true, "axiom": true, "assume": true, "package": true, "nopanic": true, "iface": true,
-	"allowpanic": true,
+	"allowpanic": true, "delegates": true, "reveal": true, "owned": true, "prune": true,
 }
 
 var funcHdr = regexp.MustCompile(`^func\s+(?:\(\s*(?:([\w]+)\s+)?(\*?)([\w.]+)\s*\)\s*)?([\w$]+)\s*\(`)
@@ -168,6 +174,18 @@ func (p *Program) loadContracts(path string) error {
 			}
 			cur = &Contract{Key: key, Pkg: pkg, Loops: map[int]*LoopSpec{}, Src: src, Iface: word == "iface", Asserts: map[string][]*Clause{}, RecvName: m[1]}
 			p.contract[key] = cur
+		case "owned":
+			cur = nil
+			for _, f := range strings.Fields(strings.ReplaceAll(rest, ",", " ")) {
+				parts := strings.Split(f, ".")
+				if len(parts) != 2 {
+					return fail(fmt.Errorf("owned needs Type.field: %q", f))
+				}
+				if p.owned == nil {
+					p.owned = map[string]bool{}
+				}
+				p.owned[pkg+"."+parts[0]+"."+parts[1]] = true
+			}
 		case "spec":
 			cur = nil
 			if err := p.parseSpecDecl(pkg, rest, src); err != nil {
@@ -219,6 +237,8 @@ func splitWord(t string) (string, string) {
 	return t[:i], strings.TrimSpace(t[i:])
 }
 
+var lastWitness map[string]string
+
 // parseTag strips a leading "[label; C01 C02]" tag from *rest.
 func parseTag(rest *string) (label string, props []string) {
 	r := strings.TrimSpace(*rest)
@@ -231,10 +251,19 @@ func parseTag(rest *string) (label string, props []string) {
 	}
 	tag := r[1:j]
 	*rest = strings.TrimSpace(r[j+1:])
-	parts := strings.SplitN(tag, ";", 2)
+	parts := strings.SplitN(tag, ";", 3)
 	label = strings.TrimSpace(parts[0])
-	if len(parts) == 2 {
+	if len(parts) >= 2 {
 		props = strings.Fields(parts[1])
+	}
+	if len(parts) == 3 {
+		lastWitness = map[string]string{}
+		for _, f := range strings.Fields(strings.TrimPrefix(strings.TrimSpace(parts[2]), "witness")) {
+			kv := strings.SplitN(f, "=", 2)
+			if len(kv) == 2 {
+				lastWitness[kv[0]] = kv[1]
+			}
+		}
 	}
 	// a tag consisting only of property ids
 	if len(parts) == 1 && regexp.MustCompile(`^(C\d+\s*)+$`).MatchString(label) {
@@ -246,12 +275,13 @@ func parseTag(rest *string) (label string, props []string) {
 
 func (p *Program) parseClause(c *Contract, word, rest, src string) error {
 	mk := func(rest string) (*Clause, error) {
+		lastWitness = nil
 		label, props := parseTag(&rest)
 		e, err := parseExpr(rest)
 		if err != nil {
 			return nil, err
 		}
-		return &Clause{Label: label, Props: props, E: e, Text: rest, Src: src}, nil
+		return &Clause{Label: label, Props: props, E: e, Text: rest, Src: src, Witness: lastWitness}, nil
 	}
 	switch word {
 	case "props":
@@ -265,6 +295,18 @@ func (p *Program) parseClause(c *Contract, word, rest, src string) error {
 		c.NoPanic = true
 	case "allowpanic":
 		c.AllowPanic = append(c.AllowPanic, strings.Fields(rest)...)
+	case "prune":
+		c.Prune = true
+	case "reveal":
+		for _, f := range strings.Fields(strings.ReplaceAll(rest, ",", " ")) {
+			c.Reveal = append(c.Reveal, f)
+		}
+	case "delegates":
+		te, err := parseTypeString(strings.TrimSpace(rest))
+		if err != nil {
+			return err
+		}
+		c.Delegate = te
 	case "requires":
 		cl, err := mk(rest)
 		if err != nil {
@@ -452,7 +494,8 @@ func splitTop(s string, sep byte) []string {
 	return out
 }
 
-var specFuncHdr = regexp.MustCompile(`^(func|pred)\s+(\w+)\s*\(([^)]*)\)\s*([^{]*)\{(.*)\}\s*$`)
+var specAbstractHdr = regexp.MustCompile(`^abstract\s+(\w+)\s*\(([^)]*)\)\s*(.*)$`)
+var specFuncHdr = regexp.MustCompile(`^(func|pred|opaque)\s+(\w+)\s*\(([^)]*)\)\s*([^{]*)\{(.*)\}\s*$`)
 var specConstHdr = regexp.MustCompile(`^const\s+(\w+)\s*=\s*(.+)$`)
 
 func (p *Program) parseSpecDecl(pkg, rest, src string) error {
@@ -460,11 +503,28 @@ func (p *Program) parseSpecDecl(pkg, rest, src string) error {
 		p.specCst[pkg+"."+m[1]] = strings.TrimSpace(m[2])
 		return nil
 	}
+	if m := specAbstractHdr.FindStringSubmatch(rest); m != nil {
+		sf := &SpecFunc{Name: m[1], Pkg: pkg, Abstract: true}
+		params, err := parseParams(m[2])
+		if err != nil {
+			return err
+		}
+		sf.Params = params
+		if rt := strings.TrimSpace(m[3]); rt != "" && rt != "bool" {
+			te, err := parseTypeString(rt)
+			if err != nil {
+				return err
+			}
+			sf.Ret = te
+		}
+		p.specFn[pkg+"."+sf.Name] = sf
+		return nil
+	}
 	m := specFuncHdr.FindStringSubmatch(rest)
 	if m == nil {
 		return fmt.Errorf("bad spec declaration %q", rest)
 	}
-	sf := &SpecFunc{Name: m[2], Pkg: pkg, Text: strings.TrimSpace(m[5])}
+	sf := &SpecFunc{Name: m[2], Pkg: pkg, Text: strings.TrimSpace(m[5]), Opaque: m[1] == "opaque"}
 	params, err := parseParams(m[3])
 	if err != nil {
 		return err
